@@ -18,7 +18,7 @@ func (c16) Level() string { return "fault_enumeration" }
 func (c16) Procs() int    { return 2 }
 func (c16) Budget(tier string) (int, int) {
 	if tier == "thorough" {
-		return 6000000, 600
+		return 60000000, 600
 	}
 	return 50000, 25
 }
